@@ -62,6 +62,9 @@ PKG = {
           ['CO2'], {'NaCl': ('s', 2), 'LacticAcid': ('l', 1)}),
     'alc': (ALC, [], {}),
     'hc': (HC, [], {}),
+    # the same families on a package built with PCF=IdealGasPoyintingCorrectionFactors (Poynting factor exp(vl (P-Psat)/RT))
+    'alcP': (ALC, [], {}),
+    'hcP': (HC, [], {}),
 }
 _pk = {}
 _ref = {}
@@ -94,7 +97,11 @@ def package(pid, ideal=False):
                 c = tmo.Chemical(n, phase=ph)
                 if ns is not None: c.N_solutes = ns
                 chems.append(c)
-            base = _pk[(pid, False)] = tmo.Thermo(tmo.Chemicals(chems))
+            kwargs = {}
+            if pid.endswith('P'):
+                from thermosteam.equilibrium import IdealGasPoyintingCorrectionFactors
+                kwargs['PCF'] = IdealGasPoyintingCorrectionFactors
+            base = _pk[(pid, False)] = tmo.Thermo(tmo.Chemicals(chems), **kwargs)
             runner.register_chemicals(base.chemicals)
         th = base.ideal() if ideal else base
         _pk[key] = th
@@ -666,7 +673,7 @@ def pressure_sensitivity(ctx, th, names, mol, inerts, start, T, P, q, got):
 # (c) vapour-fraction specification, homologous families
 # ---------------------------------------------------------------------------
 def prop_vspec(ch, ctx):
-    pid = ch.choice('pkg', ['alc', 'hc'])
+    pid = ch.choice('pkg', ['alc', 'hc', 'hcP', 'alcP'])
     names, z, F = draw_volatile(ch, pid, 1, 5, zmin=0.02)
     n = len(names)
     start = draw_start(ch, names)
@@ -780,7 +787,7 @@ def check_split(ctx, snap, th, names, mol, r, site, region, rtol):
 # (d) phase boundaries and iso-fugacity at specified T and P, homologous families
 # ---------------------------------------------------------------------------
 def prop_boundary(ch, ctx):
-    pid = ch.choice('pkg', ['alc', 'hc'])
+    pid = ch.choice('pkg', ['alc', 'hc', 'hcP', 'alcP'])
     names, z, F = draw_volatile(ch, pid, 2, 5, zmin=0.02)
     n = len(names)
     start = draw_start(ch, names)
@@ -812,6 +819,7 @@ def prop_boundary(ch, ctx):
     T = float(T); P = float(P)
     region = f'{stratum},fam={pid}'
     ctx.cell('boundary:' + stratum)
+    if pid.endswith('P'): ctx.cell('boundary:pcf-package')
     prelude(ch, ctx, pid, names, z, F, False, T, P)
     s = build(th, names, z * F, {}, start)
     set_default(ch, ctx, pid, False)
@@ -839,7 +847,7 @@ def prop_boundary(ch, ctx):
                 ctx.fail(f'isofug.TP|{region}|component-missing-from-a-phase',
                          f'{names[i]}: vapour {v[i]!r}, liquid {l[i]!r} of feed {mol[i]!r} in a two-phase result (T={T}, P={P})')
             x = l / l.sum(); y = v / v.sum()
-            res = x * ref.gamma(x, T) * ref.Psats(T) / (y * P) - 1.0
+            res = x * ref.gamma(x, T) * ref.pcf(T, P) * ref.Psats(T) / (y * P) - 1.0
             ctx.metric_max('isofug:max|f_l/f_g-1|', np.abs(res).max())
             if np.abs(res).max() > TOL_ISO:
                 i = int(np.abs(res).argmax())
@@ -881,7 +889,17 @@ def prop_ideal(ch, ctx):
     region = f'{nvol_tag(n)},{ "two" if Pd < P < Pb else "single"}'
     pre = prelude(ch, ctx, pid, names, z, F, True, T, P)
     region += f',pre={int(pre != "none")}'
-    s = build(th, names, z * F, {}, start)
+    # how the user selects the ideal package: thermo.ideal() passed to the stream, or the documented
+    # settings.set_thermo(<Thermo>, ideal=True) with the stream created on the default package
+    select = ch.choice('select', ['explicit', 'settings'])
+    ctx.cell('ideal:select=' + select)
+    if select == 'settings':
+        tmo.settings.set_thermo(package(pid, ideal=False), ideal=True)
+        th_sel = tmo.settings.get_thermo()
+        region += ',select=settings'
+    else:
+        th_sel = th
+    s = build(th_sel, names, z * F, {}, start)
     set_default(ch, ctx, pid, True)
     kw = dict(T=T, P=P)
     ctx.cell('ideal:' + ('two' if Pd < P < Pb else 'single'))
